@@ -11,7 +11,7 @@ import CtyModel.Lemmas.d04Refine
 import CtyModel.Lemmas.ConvertD08WT
 namespace CtyModel
 namespace D04C
-open Convert
+open Convert D04R
 
 /-- every mark at any depth of `r` satisfies `P` -/
 def W (P : String → Prop) (r : Value) : Prop := ∀ m ∈ r.marksDeep, P m
